@@ -145,7 +145,11 @@ def c04(tier, seed):
         # resources decide the thread in EVERY execution mode: executors restricted by target / exclude / root nodes, setup nodes
         # (any resource) run by setup() or by the first call
         + sched_jobs(tier, seed + 21, gen=dict(nmin=3, nmax=9, mc_max=4, max_deps=2, setup_rate=0.3), selections=True, dfs=False, stress=False, scale=0.4)
-        + diff_jobs("C04", tier, seed, dict(flags=0.2, nest=0.3, nest_flag=0.2, share_fns=0.3, seq=0.2), 2, nj_scale=0.25, only=[]),
+        + diff_jobs("C04", tier, seed, dict(flags=0.2, nest=0.3, nest_flag=0.2, share_fns=0.3, seq=0.2), 2, nj_scale=0.25, only=[])
+        # "main-thread" is the thread that makes the call - also when that is a worker thread, or a node function of another DAG
+        + [dict(kind="env", pid="C04", scenarios=["worker_thread", "reentrant"], n_cases=(40 if tier == "quick" else 400),
+                only=["per_execution_monitor_failed(call made by a non-main thread)(C04:*", "per_execution_monitor_failed(inner execution started from a node body)(C04:*"],
+                **_seeds(seed + 47, k)) for k in range(2 if tier == "quick" else 6)],
         level="exploration", rule=RULE_SCHED + RULE_W3 + "; wide fan-outs (ready >> max_concurrency), max_concurrency 1..8",
         assumptions=ASSUME_COMMON, required_reach=["c04_pooled_decisions", "c04_thread_checks", "SUBMIT"],
         parallel=8 if tier == "quick" else 16,
@@ -316,7 +320,11 @@ def c01(tier, seed):
         # plain Python returns; so does an executor that is run again
         + [dict(kind="hist15", pid="C01", n_histories=(40 if tier == "quick" else 400),
                 only=["call_outcome_depends_on_earlier_history", "call_after_history_raised", "executor_rerun_used_partially_consumed_graph"],
-                **_seeds(seed + 55, k)) for k in range(2 if tier == "quick" else 8)],
+                **_seeds(seed + 55, k)) for k in range(2 if tier == "quick" else 8)]
+        # ... wherever the call is made: inside a node function of another DAG, by a worker thread, in a second event loop, on a copy
+        + [dict(kind="env", pid="C01", n_cases=(60 if tier == "quick" else 600),
+                only=["dag_called_from_a_node_body_*", "call_from_worker_thread_*", "await_in_*", "call_on_a_copied_or_copied_from_dag_wrong"],
+                **_seeds(seed + 59, k)) for k in range(2 if tier == "quick" else 6)],
         level="exploration", rule=RULE_DIFF + "; plus histories on one DAG object (calls, executors, composes, configuration reloads, failing "
         "calls, executor re-runs) where every later call must still equal its plain-Python reference", assumptions=ASSUME_DIFF,
         required_reach=["value_comparisons", "programs", "FENTER", "XENTER"], parallel=8 if tier == "quick" else 16,
@@ -459,7 +467,12 @@ def c15(tier, seed):
         # "... never on executors created": a restart executor reads the cache file as it is NOW, not as an earlier executor of the
         # process found it under the same path
         + [dict(kind="cache18", pid="C15", n_cases=(120 if tier == "quick" else 1200), only=["restart_returns_values_of_an_older_cache_file_content"],
-                **_seeds(seed + 37, k)) for k in range(2 if tier == "quick" else 8)],
+                **_seeds(seed + 37, k)) for k in range(2 if tier == "quick" else 8)]
+        # copies (deepcopy, dill round trip) made before / after calls and failed calls behave like the freshly built DAG, and so does
+        # the original; an await after a CANCELLED await; an inner DAG after it was called from node functions of another DAG
+        + [dict(kind="env", pid="C15", scenarios=["copies", "loops", "reentrant"], n_cases=(60 if tier == "quick" else 600),
+                only=["call_on_a_copied_or_copied_from_dag_wrong", "deepcopy_of_a_dag_raised", "await_after_a_cancelled_await_in_the_same_loop_*",
+                      "dag_state_changed_by_calls_from_node_bodies"], **_seeds(seed + 39, k)) for k in range(2 if tier == "quick" else 6)],
         level="exploration",
         rule="histories with setup nodes (calls, executors with selections, setup(targets), deep copies, reloads; both flavours): setup "
         "results are the only state that survives and it is always the first value; random histories (2..8 operations) over {call with full args, call omitting the defaulted argument, executor create+run, executor "
@@ -518,6 +531,10 @@ def c16(tier, seed):
         jobs=[dict(kind="conc16", n_cases=nc, lockset=True, **_seeds(seed, k)) for k in range(nj)]
         # forced pre-emption at statement boundaries of tawazi's own code (sys.monitoring LINE events, ~15x slower)
         + [dict(kind="conc16", n_cases=(6 if tier == "quick" else 60), lockset=True, yield_inject=0.05, **_seeds(seed + 40, k))
+           for k in range(2 if tier == "quick" else 8)]
+        # re-entrancy: node functions of an outer DAG that call (or build and call) another DAG while they run - two call sites, two
+        # worker threads; calls made by a thread that is not the main thread
+        + [dict(kind="env", pid="C16", scenarios=["reentrant", "worker_thread"], n_cases=(60 if tier == "quick" else 500), **_seeds(seed + 45, k))
            for k in range(2 if tier == "quick" else 8)],
         level="exploration",
         rule="three workloads in rotation: (1) 2..16 threads x 1..3 calls of one generated DAG with distinct argument nonces (probes sleep 0..2 ms): "
@@ -547,7 +564,10 @@ def c17(tier, seed):
         # setup(selection), tags spelled like ids, ...) on AsyncDAGs only, against the model every DAG satisfies
         + [dict(kind="hist11", pid="C17", flavour="async", n_histories=(200 if tier == "quick" else 800),
                 only=["executed_set_differs_from_model", "later_execution_does_not_see_first_setup_value", "ran_setup_node_the_selection_does_not_need",
-                      "setup_node_in_selection_did_not_run"], **_seeds(seed + 27, k)) for k in range(3 if tier == "quick" else 8)],
+                      "setup_node_in_selection_did_not_run"], **_seeds(seed + 27, k)) for k in range(3 if tier == "quick" else 8)]
+        # one AsyncDAG in several event loops one after the other, in a loop with a one-worker default executor, and awaited again after
+        # an await that was cancelled in flight
+        + [dict(kind="env", pid="C17", scenarios=["loops"], n_cases=(40 if tier == "quick" else 400), **_seeds(seed + 29, k)) for k in range(2 if tier == "quick" else 6)],
         level="exploration",
         rule="per case: (1) one generated program (2..8 call sites, all resources, flags, optional setup nodes) built as DAG and as AsyncDAG and "
         "run under the controller or free: value, multiset of entered call sites and recorded setup results must be equal (and equal to the "
